@@ -66,3 +66,24 @@ def run(cx):
     from .. import rules_a as A
     _run_curve(cx)
     A.a_curve(cx, 'A-CURVE', 'sm2', 4)
+
+
+_run_pow = run
+
+
+def run(cx):
+    from .. import rules_s as S
+    _run_pow(cx)
+    # I-POW: the square-and-multiply loops cannot skip a limb, a bit or a squaring
+    for q in ('gm_sm2::fields::fp64::fp_pow','gm_sm2::fields::fn64::fn_pow',):
+        S.square_multiply(cx, 'I-POW', q)
+
+
+_run_poly = run
+
+
+def run(cx):
+    from .. import rules_poly as RPL
+    _run_poly(cx)
+    # A-POLY: the Jacobian formulas equal the chord-and-tangent law as rational functions
+    RPL.a_poly_curve(cx, 'A-POLY', 'gm_sm2', 3)
